@@ -115,6 +115,10 @@ impl Gen {
     /// an inflectable prefix: alphanumerics, `_`, `-`; `delim_end` for container prefixes
     pub fn infl_prefix(&mut self, delim_end: bool, long: bool) -> String {
         let r = &mut self.rng;
+        // nasty: delimiter-only prefixes, and (flatten level only) the empty prefix
+        if !long && r.chance(1, 20) {
+            return (*r.pick(if delim_end { &["_", "-", "__", "-_"][..] } else { &["_", "-", "__", ""][..] })).to_string();
+        }
         let mut s = String::new();
         let n = if long { r.range(5, 12) } else { r.range(1, 2) };
         for i in 0..n {
